@@ -30,6 +30,24 @@ def _cases(draw):
                 p_text_ref=0.15, p_plain_too=0.3, p_arg_default_language=0.3, p_choice_label_ref=0.1, p_extra_cols=0.2, p_prefixed_names=0.1, p_osm=0.05)
     g = gen.G(draw, prof)
     form = gen.build_form(draw, prof, g=g)
+    if form.get("lists") and g.langs and g.p("_", 0.1):
+        # a label-less select with the 'label' appearance (the header row of a hand-made table) that has media only
+        ln = form["lists"][0]["name"]
+        c_ = {"type": f"select_one {ln}", "name": g.name("hdr"), "appearance": "label"}
+        for lg in g.langs[:2]:
+            c_[f"image::{lg}"] = f"hdr_{len(lg)}.png"
+        if not any(ln == x for x in getattr(g, "search_lists", [])):
+            form["nodes"].append({"k": "q", "c": c_})
+    if g.p("_", 0.15):
+        # a calculated row whose only visible content is media: it is still something to show
+        for n, _ in model.walk(form["nodes"]):
+            c_ = n["c"]
+            if (n["k"] == "q" and c_.get("type") in ("note", "text") and any(k.split("::")[0] in ("image", "audio", "video") for k in c_)
+                    and "calculation" not in c_ and "trigger" not in c_ and not any(("${%s}" % c_["name"]) in x for x in common.all_strings(form))):
+                for k in [k for k in c_ if k.split("::")[0] in ("label", "hint", "guidance_hint", "constraint_message", "required_message", "constraint", "required")]:
+                    del c_[k]
+                c_["calculation"] = "1 + 1"
+                break
     if g.p("_", 0.6):
         form["survey_col_order"] = [g.integer(0, 999) for _ in range(15)]
     return {"form": form}
@@ -174,6 +192,10 @@ def check(out, form, v):
                     if got is None or not same_text(want, got):
                         out.fail("C08.text", f"{kind}:{'hole' if lang not in val else 'value'}", f"{n.path} {kind} [{lang}]: expected {want!r}, shown {got!r}")
                         break
+        if media and expect.expected_control(n) is not None and ctrl is None and n.kind == "q":
+            # media is something to show: a row that has some must have a control that shows it
+            out.checked("C08.media")
+            out.fail("C08.media", "no-control", f"{n.path}: media {sorted(media)} written but the row has no body control")
         if media and has_ctrl:
             el = next((ch for ch in xform.elems(ctrl) if xform.local(ch) == "label"), None)
             tid = xform.itext_id(el.get("ref")) if el is not None else None
